@@ -3,6 +3,7 @@ package main
 import (
 	"fmt"
 	"go/token"
+	"go/types"
 
 	"golang.org/x/tools/go/ssa"
 )
@@ -133,6 +134,13 @@ func runC10(p *Prog, r *Report) {
 				return (isPhi || isCell) && feedsUnlockMerged(fn, b)
 			}
 			ordNeverAfter(p, r, fn, "reply-counted", nil, sel, "receive of a merge request", sendTrue, "writeMergedC <- true", inc, "merged++")
+			// every merged request's sync flag is read (and or-ed into the group's, C10.4) before it is
+			// told "merged": a Put(Sync) merged into a non-sync leader's group must still be synced
+			readSync := func(in ssa.Instruction) bool {
+				v, ok := in.(ssa.Value)
+				return ok && mFieldLoad("leveldb.writeMerge", "sync")(v)
+			}
+			ordNeverAfter(p, r, fn, "merged-sync-honoured", groupNotYetSync(fn), sel, "receive of a merge request", sendTrue, "writeMergedC <- true", readSync, "reading the request's sync flag")
 			// non-blocking: the leader never waits for requests
 			nb := countInstr(fn, func(in ssa.Instruction) bool { s, ok := in.(*ssa.Select); return ok && sel(in) && !s.Blocking })
 			r.Check(nb == 1, fnName(fn), "merge-receive-nonblocking", "the leader polls writeMergeC without blocking (select with default)", fmt.Sprintf("%d non-blocking receives", nb), p.Pos(fn.Pos()))
@@ -379,4 +387,38 @@ func ruleGroupResultConsistent(p *Prog, r *Report, rule string) {
 	if n == 0 {
 		r.Fail(fnName(fn), "unresolved-anchor", "writeLocked calls unlockWrite", "no unlockWrite call (direct or deferred) found", p.Pos(fn.Pos()), nil)
 	}
+}
+
+// groupNotYetSync: the assumption "the group's sync flag is still false" (otherwise `sync ||
+// incoming.sync` short-circuits and legitimately skips reading the request's flag): the leader's
+// own sync parameter and every value merged from it are false.
+func groupNotYetSync(fn *ssa.Function) EdgeFilter {
+	var syncP *ssa.Parameter
+	for _, pa := range fn.Params {
+		if pa.Name() == "sync" && isBoolType(pa.Type()) {
+			syncP = pa
+		}
+	}
+	return assumeBool(func(v ssa.Value) (bool, bool) {
+		if syncP == nil {
+			return false, false
+		}
+		if v == ssa.Value(syncP) {
+			return false, true
+		}
+		// the loop-carried group flag: a boolean phi that merges the parameter with later values
+		if ph, ok := v.(*ssa.Phi); ok && isBoolType(ph.Type()) {
+			for _, e := range ph.Edges {
+				if e == ssa.Value(syncP) {
+					return false, true
+				}
+			}
+		}
+		return false, false
+	})
+}
+
+func isBoolType(t types.Type) bool {
+	b, ok := t.Underlying().(*types.Basic)
+	return ok && b.Kind() == types.Bool
 }
